@@ -26,15 +26,16 @@ def shapes(tier):
         S.append((sh, 1))
     return S
 def build(tier, seed):
-    known = set(k['key'] for k in vf.load_known_findings())
-    J = []
-    to = 1800 if tier == 'quick' else 7200
-    for sh, lv in shapes(tier):
-        J.append(sync_job('C06', sh, lv, timeout=to))
-    J.append(sync_job('C06', ['CHG', 'BLK'], 1, reorder=True, timeout=to))
-    return dict(jobs=J, bounds={'disks': '2 (3 thorough)', 'levels': '1 (2 thorough)', 'stripes': 1, 'data plane': 'abstract: 8-byte blocks = one token'},
-        assumptions=['abstract data plane: memhash = injective uninterpreted function, raid_gen = fresh parity tokens with a ghost record of the encoded vector, raid_rec = contract stub (that the real kernels meet these contracts is C02/C03)',
-                     'io_* = contract stubs re-stating the single-thread semantics with an ideal error report (that io.c meets it is C13 and the mono harness of C08)',
-                     'pre-state = every combination of block states / past hashes / per-level old-or-new parity allowed by the documented meaning of the states; no hash migration on the stripe'],
-        trusted=['cbmc 6.11.0', 'kissat', 'stubs listed in harness/C06_sync.c'],
-        outside=['block map allocation (scan.c/elem.c trees)', 'parity file size', 'more than one stripe (autosave between stripes)', 'rehash, touch'])
+    # The stripe-level step (sync_job above, harness/C06_sync.c) does not finish symbolic execution in this sandbox (> 15 min
+    # per shape, see DESIGN.md); it is kept for reference and NOT registered.  What is decided for C06 is the save / flush
+    # protocol of state_sync() and the size arithmetic of the parity files (shared with C14 / C17).
+    import C14_interlocks, C17
+    J = [j for j in C14_interlocks.jobs(tier, seed, prop='C06') if 'refusal' not in j.name]
+    for j in C17.build(tier, seed)['jobs']:
+        if 'c17_chsize' in j.name or 'negctl' in j.name:
+            j.name = j.name.replace('C17/', 'C06/parity_size/'); J.append(j)
+    return dict(jobs=J, bounds={'parity levels': '1-3 (quick)', 'splits': 'see C17'},
+        assumptions=['state_sync_process / state_hash_process / parity_* / state_write are recorders with symbolic answers in the protocol harness',
+                     'the per-stripe invariant (a block becomes synced only after its parity was generated from the data whose hash is recorded) is NOT decided here: the whole-function harness did not finish'],
+        trusted=['cbmc 6.11.0', 'kissat', 'recorder stubs'],
+        outside=['per-stripe state changes of state_sync_process', 'block map allocation (scan.c / elem.c)', 'scrub, fix, rehash, touch'])
